@@ -391,7 +391,7 @@ BUDGET = dict(quick=240, thorough=900)
 
 def harnesses(tier):
     q = tier == "quick"
-    ks = (1, 2, 3) if q else (1, 2, 3, 4)
+    ks = (1, 2, 3)      # (thorough: the whole pool of topologies and weighted trees also at k = 3; four trees did not exhaust a single shard in 1000 s)
     common = dict(assumptions=["input trees span exactly the four taxa of the namespace", "weights are symbolic integers in [1,50] (c05_support/c05_mcct: concrete per path - sqrt/log are C functions)"],
                   outside=["HPD and quantile summaries", "float rounding (tolerance 1e-9)", "more than 4 taxa"], classify=classify)
 
